@@ -582,6 +582,39 @@ def run(ctx):
             # the Dask result itself must satisfy the property (first bin >= value / listed values)
             if fn == 'reclassify':
                 check_reclass_oracle(ctx, to_floats(a), case['bins'], case['new_values'], o_da, case, 'reclassify(dask)')
+    # several lazy classifications of ONE Dask raster with different parameters, computed in one dask.compute call
+    # (graph keys must not collide: each result must equal its own NumPy result)
+    import dask
+    for i in range(8 if ctx.quick() else 80):
+        rng = ctx.rng
+        dtype = DT[i % len(DT)]
+        a = rand_raster(rng, dtype, rng.randint(2, 5), rng.randint(2, 6), 'small')
+        agg_np = xr.DataArray(a.copy(), dims=['y', 'x'])
+        agg_da = xr.DataArray(da.from_array(a.copy(), chunks=(rng.choice([1, 2, 3]), rng.choice([2, 3]))), dims=['y', 'x'])
+        bins = sorted(set(float(rng.randint(-2, 7)) for _ in range(rng.randint(2, 4))))
+        variants = []
+        if i % 2 == 0:
+            for _ in range(3):       # same bins, different new_values
+                variants.append(('reclassify', dict(bins=bins, new_values=[float(rng.randint(0, 40)) for _ in bins])))
+        else:
+            for _ in range(3):       # same raster, different listed values
+                variants.append(('binary', dict(values=[float(rng.randint(0, 6)) for _ in range(rng.randint(1, 3))])))
+        case = dict(fn='together', data=to_floats(a), dtype=dtype, variants=[[f, kw] for f, kw in variants])
+        try:
+            lazies = [getattr(classify, f)(agg_da, **kw).data for f, kw in variants]
+            outs = dask.compute(*lazies)
+            refs = [getattr(classify, f)(agg_np, **kw).data for f, kw in variants]
+        except Exception as e:
+            ctx.violation('oracle', 'classifiers computed together raised %s: %s' % (type(e).__name__, str(e)[:200]), case)
+            continue
+        ctx.case(case)
+        ctx.count('dask/computed-together')
+        for j, (o, r_) in enumerate(zip(outs, refs)):
+            fo, fr = to_floats(o), to_floats(r_)
+            if not all((x == y) or (math.isnan(x) and math.isnan(y)) for rx, ry in zip(fo, fr) for x, y in zip(rx, ry)):
+                ctx.violation('oracle', 'variant %d of %d lazy %s results on the same Dask raster computed in one dask.compute differs '
+                              'from its NumPy result: %s vs %s' % (j + 1, len(variants), variants[j][0], fo, fr), dict(case, variant=j))
+                break
     ctx.exhaustive = False
     # ---- binary ----------------------------------------------------------
     nbin = 40 if ctx.quick() else 400
